@@ -15,7 +15,8 @@ from vlib.runner import Sub, Violation
 
 PROPERTY = "C01"
 RULE = ("jittered-lattice clouds of pairwise distinct points (1..40 points quick, up to 300 thorough; coordinate scale 1e-2..1e6, aspect 0.1..10, "
-        "offsets 0, +-1, +-10, +-100, +-1000 times the extent; 1-D/2-D arrays), finite data (1e-6..1e6, zeros, repeats; a 1e100 class), exact-"
+        "offsets 0, +-1, +-10, +-100, +-1000 times the extent; 1-D/2-D/3-D arrays; a third with exact structure: regular grids, survey lines, sorted "
+        "storage), predictions at all data points, at every third one, at the last one alone (arrays and plain numbers) and twice in a row, finite data (1e-6..1e6, zeros, repeats; a 1e100 class), exact-"
         "interpolator configurations (Spline mindist none/small, VectorSpline2D Poisson in [-1,1], KNeighbors(1), Linear/Cubic rescale off/on, "
         "Chain/Vector compositions) and Trend degrees 0..4 with integer-coefficient polynomials; non-trivial = at least 4 points (Trend: more points "
         "than coefficients), non-constant data, not skipped by the conditioning rule; distinct = SHA-1 of the case")
@@ -69,6 +70,15 @@ def check_subsets(est, e, n, comps, tol, what, exact=False):
     size = ef.size
     if size == 0:
         return
+    # a prediction is a value: predicting again at as many other points must not change the arrays handed out before
+    first = quiet(est.predict, (ef, nf))
+    first = first if isinstance(first, tuple) else (first,)
+    kept = [np.array(p, copy=True) for p in first]
+    quiet(est.predict, (ef[::-1] * 1.0009765625 + 0.3125, nf[::-1] - 0.4375))
+    for k, (p, c) in enumerate(zip(first, kept)):
+        if not np.array_equal(np.asarray(p), c, equal_nan=True):
+            raise Violation("%s: the prediction at the %d data points (component %d) changed its contents after predict was called again at %d other points (results of separate calls share memory)"
+                            % (what, size, k, size))
     picks = [("every third point", np.arange(size)[::3]), ("the last point", np.array([size - 1]))]
     for name, idx in picks:
         forms = [(ef[idx], nf[idx])]
